@@ -184,9 +184,10 @@ def build_instances(trace, meta):
                         labels.append("LFlush %s" % vd(p[4]))
                 labels.append("LEvents")
             elif op[0] == "confirm" and applied:
-                rel = rel_of(rec, n, chan)
-                if (3 in rel) or (N["pcr"] and not P["pcr"]):
-                    labels.append("LFundingLocked")
+                # the funding reached the required depth on every node (the label is a no-op when the channel
+                # already recorded OUR_CHANNEL_READY); with the peer disconnected nothing is sent and nothing is
+                # flagged, only the state bit changes
+                labels.append("LFundingLocked")
             self_disc = N["pd"] and not P["pd"] and "LDisconnect" not in labels
             # blocked updates released by a completion on another channel
             if main is None and len(N["blocked"]) < len(P["blocked"]):
